@@ -891,21 +891,25 @@ func generate(R *core.Rand, thorough bool, emit func(class string, nontrivial bo
 				continue
 			}
 			for ai, a := range m.args {
-				if m.name == "combo" {
-					// pairs of mutators: a seeded sample (quick: 12 per variant, thorough: 100 per variant, one context each)
+				if m.name == "combo" || m.name == "pos" {
+					// pairs of mutators / moved violations: a seeded sample, one context each
+					// (quick: 12 pairs and 16 moves per variant, thorough: 60 and 60)
 					lim := 12
+					if m.name == "pos" {
+						lim = 16
+					}
 					if thorough {
-						lim = 100
+						lim = 60
 					}
 					if ai >= lim {
 						break
 					}
-					a = int64(R.Intn(len(m.args)))
+					a = m.args[R.Intn(len(m.args))]
 					r := recipe{vi, ctxs[R.Intn(len(ctxs))], R.Intn(2), m.name, a}
-					if sc := buildScenario(r); sc != nil && r.ctx != "tmpltip" {
+					if sc := buildScenario(r); sc != nil && (m.name == "pos" || r.ctx != "tmpltip") {
 						if _, dup := scMemo["blk:"+r.String()]; !dup {
 							scMemo["blk:"+r.String()] = sc
-							emit("combo/"+r.ctx, true, sc.line())
+							emit(m.name+"/"+r.ctx, true, sc.line())
 						}
 					}
 					continue
